@@ -19,7 +19,7 @@
 """
 import json, os
 from concurrent.futures import ThreadPoolExecutor
-from vlib import core, fixedstring as fx, fixedstring_upstream as up
+from vlib import core, fixedstring as fx, fixedstring_upstream as up, fixedstring_r3 as r3
 from vlib.core import MachineryError
 
 PID = "C02"
@@ -60,11 +60,18 @@ def _run(ctx, started):
     if not q:
         s2c_targets["p4"] = [mk("char", 4, 0, 1)]
         s2c_targets["s4"] = [mk("char", 4, 1, 1)]
-        sim_cfgs = [("packed", mk("char", 8, 0, 1)), ("strlen", mk("char", 8, 1, 1))]
+        sim_cfgs = [("FixedString_sim_packed_throwing.cfg", mk("char", 8, 0, 1), 500, 40), ("FixedString_sim_strlen_throwing.cfg", mk("char", 8, 1, 1), 500, 40),
+                    ("FixedString_sim5_packed_throwing.cfg", mk("char", 5, 0, 1), 800, 30), ("FixedString_sim5_strlen_throwing.cfg", mk("char", 5, 1, 1), 800, 30),
+                    ("FixedString_sim7_packed_throwing.cfg", mk("char", 7, 0, 1), 300, 80), ("FixedString_sim7_strlen_throwing.cfg", mk("char", 7, 1, 1), 300, 80)]
+        # round 3: the object directly against a PROT_NONE page (flavour g: behind it, h: before it), so that one stray READ is seen
+        rnd_cfgs += [mk("char", 16, 1, 1, fl="g"), mk("char", 16, 0, 1, fl="g"), mk("char", 255, 0, 1, fl="h"), mk("char", 256, 0, 1, fl="g"), mk("char", 16, 1, 1, fl="h"),
+                     mk("char16_t", 16, 0, 1, fl="g")]
+        s2c_targets["p3"].append(mk("char", 3, 0, 1, fl="g"))
+        s2c_targets["s3"].append(mk("char", 3, 1, 1, fl="g"))
     # (the one upstream call that is C01's open finding - resize(n) growing the string - is left to C01)
     up_scripts = [(n, mk(**kw), ev) for n, kw, ev in up.scripts() if kw["thr"] and not n.endswith("-resize1grow")]
     directed = fx.merge_by_cfg("directed", up_scripts + [("alias-%d" % i, mk(**kw), ev) for i, (kw, ev) in enumerate(fx.ALIAS_DIRECTED) if kw["thr"]])
-    all_cfgs = [c for v in s2c_targets.values() for c in v] + rnd_cfgs + ref_cfgs + [c for _, c in sim_cfgs] + [c for _, c, _ in directed]
+    all_cfgs = [c for v in s2c_targets.values() for c in v] + rnd_cfgs + ref_cfgs + [x[1] for x in sim_cfgs] + [c for _, c, _ in directed]
     pool = ThreadPoolExecutor(max_workers=1)
     fut = pool.submit(fx.prepare, ctx, all_cfgs)
     # the S->C enumerations do not depend on the include tree: TLC starts on them now, the replays use them later
@@ -96,6 +103,8 @@ def _run(ctx, started):
         drivers = fut.result()
     pool.shutdown()
     have = lambda c: c["name"] in drivers
+    # findings this check proposes (PROPOSED_OPEN): their probes decide whether the class is avoided / reported as pending
+    fx.probe_pending(ctx, findings, drivers)
 
     # ---- 3. C->S: the upstream tests' call sequences (they include the suite's EXPECT_THROW calls), directed aliasing executions,
     #         random scripts with many failing calls
@@ -104,14 +113,14 @@ def _run(ctx, started):
         if not have(c):
             continue
         big = c["n"] >= 128
-        nexec, nops = ((12, 40) if big else (40, 45)) if q else ((80, 50) if big else (250, 60))
+        nexec, nops = ((12, 50) if big else (40, 60)) if q else ((100, 80) if big else (300, 90))
         lines = fx.random_script(ctx.seed + 101, c, nexec, nops, fail_bias=0.3)
         for i, ch in enumerate(fx.chunk_by_reset(lines, 1 if q else 2)):
             scripts.append(("rnd-%s-%d" % (c["name"], i), c, ch))
-    for lay, c in sim_cfgs:
+    for simcfg, c, num, depth in sim_cfgs:
         if not have(c):
             continue
-        lines, nw = fx.sim_scripts(ctx, "FixedString_sim_%s_throwing.cfg" % lay, c, 500, 40, c["name"])
+        lines, nw = fx.sim_scripts(ctx, simcfg, c, num, depth, c["name"])
         ctx.notes.setdefault("simulation_walks", {})[c["name"]] = nw
         for i, ch in enumerate(fx.chunk_by_reset(lines, 2)):
             scripts.append(("sim-%s-%d" % (c["name"], i), c, ch))
@@ -140,6 +149,11 @@ def _run(ctx, started):
     ctx.notes["c2s_failing_calls_validated"] = nfail
     ctx.cov["evaluations"] += ctx.cov["events_validated"]
     ctx.log("C->S: validated %d events (%d of them failing calls) of %d executions with TLC" % (ctx.cov["events_validated"], nfail, ctx.cov["traces_validated_against_impl"]))
+
+    # ---- round 3: XTL_NO_EXCEPTIONS builds - a failing call ends the program (each in a process of its own); verdict: the guards
+    nox_cfgs = [mk("char", 16, 0, 1), mk("char", 16, 1, 1)] + ([] if q else [mk("char", 255, 0, 1), mk("char16_t", 16, 0, 1), mk("char", 2, 0, 1, fl="c")])
+    with fx.stage(ctx, "no_exceptions_builds"):
+        r3.nox_stage(ctx, PID, [c for c in nox_cfgs if have(c)], drivers, 40 if q else 150)
 
     # ---- 4. S->C: every L1 transition at N = 3, throwing policy, including every failing call
     opcount, failcount = {}, 0
